@@ -655,6 +655,9 @@ func normCond(cond ssa.Value) (a Atom, pos bool) {
 type Edge struct {
 	From *ssa.BasicBlock
 	Idx  int
+	// Via, when set, restricts the edge to paths that entered From directly from block Via: a
+	// branch on a boolean phi certifies only for the incoming value that arrived over that edge.
+	Via *ssa.BasicBlock
 }
 
 func (e Edge) To() *ssa.BasicBlock { return e.From.Succs[e.Idx] }
@@ -681,7 +684,7 @@ func condEdges(fn *ssa.Function, want bool, pred func(a Atom) bool) []Edge {
 		if pos != want {
 			idx = 1
 		}
-		out = append(out, Edge{b, idx})
+		out = append(out, Edge{From: b, Idx: idx})
 	}
 	return out
 }
@@ -837,7 +840,10 @@ func psSearch(start *ssa.BasicBlock, cut []Edge, blocked func(*ssa.BasicBlock) b
 			}
 		}
 		for i, s := range b.Succs {
-			if isCut[Edge{b, i}] {
+			if isCut[Edge{From: b, Idx: i}] {
+				continue
+			}
+			if n.prev != nil && isCut[Edge{From: b, Idx: i, Via: n.prev.b}] {
 				continue
 			}
 			nk := known
@@ -851,7 +857,7 @@ func psSearch(start *ssa.BasicBlock, cut []Edge, blocked func(*ssa.BasicBlock) b
 					if prevOut != out {
 						continue // infeasible: contradicts an earlier test of the same value, or the constant a flag was set to on this path
 					}
-				} else if multi[ck] {
+				} else if multi[ck] || isNilTest(ck) {
 					nk = copyKnown(known)
 					nk[ck] = out
 				}
@@ -905,7 +911,7 @@ func reachableSet(from *ssa.BasicBlock, cut []Edge) map[*ssa.BasicBlock]bool {
 		b := q[0]
 		q = q[1:]
 		for i, s := range b.Succs {
-			if isCut[Edge{b, i}] || seen[s] {
+			if isCut[Edge{From: b, Idx: i}] || seen[s] {
 				continue
 			}
 			seen[s] = true
@@ -1404,6 +1410,10 @@ func phiOutcomes(from, to *ssa.BasicBlock, known map[ssa.Value]bool) map[ssa.Val
 						continue
 					}
 				}
+				if isNil, okn := nilnessFromTests(e, known); okn {
+					set(ph, isNil, false)
+					continue
+				}
 				if _, had := known[ph]; had {
 					set(ph, false, true)
 				}
@@ -1451,4 +1461,34 @@ func nilTestOutcome(cond ssa.Value, known map[ssa.Value]bool) (bool, bool) {
 		return false, false
 	}
 	return isNil == (bo.Op == token.EQL), true
+}
+
+// isNilTest: v == nil or v != nil.
+func isNilTest(cond ssa.Value) bool {
+	bo, ok := cond.(*ssa.BinOp)
+	return ok && (bo.Op == token.EQL || bo.Op == token.NEQ) && (isNilConst(bo.X) || isNilConst(bo.Y))
+}
+
+// nilnessFromTests: is value e known (not) to be nil from a nil test of e whose
+// outcome is recorded on this path?
+func nilnessFromTests(e ssa.Value, known map[ssa.Value]bool) (bool, bool) {
+	for k, out := range known {
+		bo, ok := k.(*ssa.BinOp)
+		if !ok || (bo.Op != token.EQL && bo.Op != token.NEQ) {
+			continue
+		}
+		var v ssa.Value
+		switch {
+		case isNilConst(bo.Y):
+			v = bo.X
+		case isNilConst(bo.X):
+			v = bo.Y
+		default:
+			continue
+		}
+		if v == e {
+			return out == (bo.Op == token.EQL), true
+		}
+	}
+	return false, false
 }
